@@ -11,13 +11,19 @@ C07 == INSTANCE Mon_C07 WITH MCfg <- P
 C11 == INSTANCE Mon_C11 WITH MCfg <- P
 C12 == INSTANCE Mon_C12 WITH MCfg <- P
 C13 == INSTANCE Mon_C13 WITH MCfg <- P
+C08 == INSTANCE Mon_C08 WITH MCfg <- P
+C09 == INSTANCE Mon_C09 WITH MCfg <- P
+C17 == INSTANCE Mon_C17 WITH MCfg <- P
 
 Verdicts(tr) ==
   [C06 |-> FoldLeft(C06!Step, C06!Init, tr).viol,
    C07 |-> FoldLeft(C07!Step, C07!Init, tr).viol,
    C11 |-> FoldLeft(C11!Step, C11!Init, tr).viol,
    C12 |-> FoldLeft(C12!Step, C12!Init, tr).viol,
-   C13 |-> FoldLeft(C13!Step, C13!Init, tr).viol]
+   C13 |-> FoldLeft(C13!Step, C13!Init, tr).viol,
+   C08 |-> FoldLeft(C08!Step, C08!Init, tr).viol,
+   C09 |-> FoldLeft(C09!Step, C09!Init, tr).viol,
+   C17 |-> FoldLeft(C17!Step, C17!Init, tr).viol]
 
 ASSUME JsonSerialize(IOEnv.OUT, [i \in 1..Len(Traces) |-> Verdicts(Traces[i])])
 
